@@ -76,7 +76,11 @@ IKINDS = {
     "iin_either": ("or", ("in", A(M, "p"), ("cc", A(X, "t"))), ("not", ("in", A(M, "p"), CC))),
     # the parent variable selected next to the outer one: it is not restricted by the concatenation
     "iin_selx": ("in", A(M, "p"), CC),
+    # the concatenation inside the condition of a for_all: every value of the universal is in the ONE combined list
+    "ifa": ("and", ("fa", ("v", "u"), ("in", A(("v", "u"), "p"), CC)), ("cmp", "ge", A(M, "p"), L(0))),
+    "ifa_not": ("and", ("fa", ("v", "u"), ("not", ("in", A(("v", "u"), "p"), CC))), ("cmp", "ge", A(M, "p"), L(0))),
 }
+VU = ("u", "let", "Item", "EU")
 
 
 def cases(tier, inst):
@@ -155,7 +159,7 @@ def wspec_of(combo):
         # a second collection per parent (attribute t): the inner values shifted by one parent
         inn = combo[1:]
         rows = tuple((("p", i + 1), ("items", inner), ("t", inn[(i + 1) % len(inn)])) for i, inner in enumerate(inn))
-        return (("E", "Item", tuple((("p", i),) for i in range(4))), ("P", "Item", rows))
+        return (("E", "Item", tuple((("p", i),) for i in range(4))), ("EU", "Item", ((("p", 0),), (("p", 2),))), ("P", "Item", rows))
     if combo and combo[0] == "str":
         rows = tuple((("p", i + 1), ("items", inner)) for i, inner in enumerate(combo[1:]))
         return (("E", "Item", tuple((("p", v),) for v in ("ab", "a", "", "c"))), ("P", "Item", rows))
@@ -306,7 +310,7 @@ def run_case(case, inst):
                 continue
             combined.extend(p.items if isinstance(p.items, tuple) else [p.items])
         try:
-            obj, b = Q.build(q, world, inst)
+            obj, b = Q.build(q, world, inst, predeclare=(VU,) if k in ("ifa", "ifa_not") else ())
             got = list(obj.evaluate())
             if k == "ivalue_setof":
                 got = [r[b.sel[q][0]] for r in got]
@@ -322,6 +326,9 @@ def run_case(case, inst):
         if k in ("value", "ivalue", "ivalue_setof"):
             return got, combined, None
         neg = "not" in k or k.startswith("inv")
+        if k in ("ifa", "ifa_not"):
+            holds = all((u.p in combined) != (k == "ifa_not") for u in world["EU"])
+            return got, (list(world["E"]) if holds else []), len(world["E"]) + 1
         if k in ("iin_both", "iin_either", "iin_selx"):
             combined_t = []
             for p in world["P"]:
